@@ -363,6 +363,10 @@ impl NodeStream {
             if let Err(p) = r {
                 let m = p.downcast_ref::<String>().cloned().or_else(|| p.downcast_ref::<&str>().map(|s| s.to_string())).unwrap_or("?".into());
                 out.violation(if m.contains("concurrency") { "C17" } else { "C05" }, "facade-panic", format!("the API facade panicked in call c{no} ({}): {m}", c.what));
+                if m.contains("dropped before sending") || m.contains("Disconnected") {
+                    // the actor dropped the caller's channel without sending an outcome
+                    out.violation("C06", "caller-dropped-without-outcome", format!("call c{no} ({}) was never answered: its channel was dropped by the actor ({m})", c.what));
+                }
                 events.push(format!("c{no}:panic"));
                 finished = true;
                 kind = None;
@@ -1375,9 +1379,14 @@ impl<'a> Driver<'a> {
     /// in the answers, the 20 first ones in the lookup's order (BEP42-secure ids first, then XOR
     /// distance to the target) must all have been queried.
     pub fn lookup_and_check_closure(&mut self, call: String, target: &Id) {
-        let sent_before = self.s.all_sent.len();
-        let delivered_before = self.delivered.len();
-        self.api(call.clone());
+        self.lookup_and_check_closure_from(call, target, false)
+    }
+    /// `attached`: the call joins a lookup of the target that is already running (the bootstrap
+    /// lookup), so the trace of that lookup starts at the beginning of the case
+    pub fn lookup_and_check_closure_from(&mut self, call: String, target: &Id, attached: bool) {
+        let sent_before = if attached { 0 } else { self.s.all_sent.len() };
+        let delivered_before = if attached { 0 } else { self.delivered.len() };
+        let call_no = self.api(call.clone());
         self.settle(30 * SEC, 10 * MS);
         let suffix = format!("/{}", hex(target.as_bytes()));
         let queried: std::collections::HashSet<SocketAddrV4> = self.s.all_sent[sent_before..].iter().filter(|x| x.key.as_deref().map(|k| k.ends_with(&suffix) && !k.contains("/put/")).unwrap_or(false)).map(|x| x.to).collect();
@@ -1398,6 +1407,41 @@ impl<'a> Driver<'a> {
         let t = *target.as_bytes();
         seen.sort_by_key(|n| (!crate::streams::id::valid_ref(n.id().as_bytes(), *n.address().ip()), n.id().as_bytes().iter().zip(t.iter()).map(|(a, b)| a ^ b).collect::<Vec<u8>>()));
         self.out.count(&format!("closure-checked:seen>20={}", seen.len() > 20));
+        // find_node reports the closest entries: every listed node among the first 20 (in the lookup's
+        // order) of the listed nodes is reported, unless 20 reported nodes precede it
+        if call.starts_with("find_node") {
+            let key = |n: &Node| (!crate::streams::id::valid_ref(n.id().as_bytes(), *n.address().ip()), n.id().as_bytes().iter().zip(t.iter()).map(|(a, b)| a ^ b).collect::<Vec<u8>>());
+            let mut listed_only: Vec<Node> = vec![];
+            for (k, _, mt) in &self.delivered[delivered_before..] {
+                if !k.ends_with(&suffix) || k.contains("/put/") {
+                    continue;
+                }
+                if let MessageType::Response(r) = mt {
+                    for n in resp_nodes(r).1 {
+                        if n.address() != self.s.addr && !listed_only.iter().any(|e| e.address() == n.address()) {
+                            listed_only.push(n);
+                        }
+                    }
+                }
+            }
+            listed_only.sort_by_key(|n| key(n));
+            let reported: Vec<(String, String)> = self
+                .results(call_no)
+                .iter()
+                .filter_map(|r| r.split_once(":nodes:").map(|(_, l)| l.to_string()))
+                .flat_map(|l| l.split(',').filter(|x| !x.is_empty()).map(|x| x.split_once('@').map(|(i, a)| (i.to_string(), a.to_string())).unwrap_or_default()).collect::<Vec<_>>())
+                .collect();
+            for (rank, n) in listed_only.iter().take(20).enumerate() {
+                let me = (hex(n.id().as_bytes()), addr_s(&n.address()));
+                if !reported.contains(&me) {
+                    let before = reported.iter().filter(|(i, a)| key(&Node::new(id_of(i), parse_addr(a))) < key(n)).count();
+                    if before < 20 {
+                        self.out.violation("C07", "closest-entry-not-reported", format!("`{call}` reported {} nodes without {}@{}, which is entry {} of the {} nodes listed in the answers (only {before} reported nodes precede it)", reported.len(), me.0, me.1, rank + 1, listed_only.len()));
+                        break;
+                    }
+                }
+            }
+        }
         for (rank, n) in seen.iter().take(20).enumerate() {
             if !queried.contains(&n.address()) {
                 self.out.violation("C07", "closest-entry-not-queried", format!("`{call}` finished without querying {}@{}, which is entry {} of {} (secure ids first, then XOR distance) among the nodes that answered or were listed in the answers", hex(n.id().as_bytes()), addr_s(&n.address()), rank + 1, seen.len()));
@@ -1907,6 +1951,10 @@ pub fn run(out: &mut Out, seed: u64, thorough: bool, replay: Option<&str>) {
         let mut d = Driver::new(out, rng.next(), net);
         d.reachable = true;
         d.begin_at("c", &boot, None, Some(Ipv4Addr::new(45, 9, 9, 9)), rng.next() % 1_000_000 + 1, t0);
+        // a caller attached to the bootstrap lookup itself (it started from explicitly visited addresses)
+        if let Some(own) = d.s.own_id {
+            d.lookup_and_check_closure_from(format!("find_node t={}", hex(own.as_bytes())), &own, true);
+        }
         // step by step through the bootstrap, looking at the table after every step: the node confirms its
         // address and re-keys here, and must still know the nodes it knew
         let mut last_size = 0usize;
@@ -2009,6 +2057,37 @@ pub fn run(out: &mut Out, seed: u64, thorough: bool, replay: Option<&str>) {
         d.finish();
         d.out.mark_distinct(fnv(format!("L{acks}").as_bytes()));
         d.s.shutdown();
+    }
+    // ---- M: a reader that is itself putting the key reads it while its put's lookup is running (C01):
+    //         the get joins that lookup and must still be handed the stored item (salted and not)
+    for salt in [Some(&b"salt"[..]), None] {
+        for stored_seq in [7i64, 3] {
+            t0 += 10_000_000_000_000;
+            let mut net = VNet::new(&mut rng, 5, true);
+            let item = MutableItem::new(&key_from_seed(9), b"written by W", stored_seq, salt);
+            for p in net.peers.iter_mut() {
+                p.muts.insert(*item.target(), (item.value().to_vec(), *item.key(), item.seq(), *item.signature()));
+                p.extra_delay = 30 * MS;
+            }
+            let boot = vec![net.peers[0].addr];
+            let mut d = Driver::new(out, rng.next(), net);
+            d.begin("c", &boot, None, rng.next() % 1_000_000 + 1, t0);
+            d.run_for(2 * SEC, 10 * MS);
+            let put = put_mut_call(9, 5, b"item of the reader", salt, None);
+            d.api(put);
+            d.pump(MS);
+            d.pump(MS);
+            let pk = hex(key_from_seed(9).verifying_key().as_bytes());
+            let g = d.api(format!("get_mut k={pk} salt={} seq=none", salt.map(hex).unwrap_or("none".into())));
+            d.settle(20 * SEC, 10 * MS);
+            let got = d.results(g);
+            if !got.iter().any(|r| r.contains(&format!("seq={stored_seq} v={}", hex(b"written by W")))) {
+                d.out.violation("C01", "stored-item-not-yielded", format!("every storing node holds and serves (seq {stored_seq}, salt {:?}) but get_mutable on a node that is putting the same key yielded {:?}", salt.map(hex), got));
+            }
+            d.finish();
+            d.out.mark_distinct(fnv(format!("M{stored_seq}{}", salt.is_some()).as_bytes()));
+            d.s.shutdown();
+        }
     }
     // ---- I: more than 1000 distinct lookup targets roll the lookup cache (C20)
     {
